@@ -305,6 +305,9 @@ class GhostBoolector:
     def model_value(self, node):
         """unsigned value of `node` in the current model, as the binary string pyboolector returns (SymBits)"""
         k = id(node)
+        ts = z3.simplify(node.term)
+        if z3.is_bv_value(ts):
+            return SymBits(z3.IntVal(ts.as_long()), node.width)      # a constant node evaluates to itself in every model
         if k not in self.model_values:
             c = Ctx.cur
             v = c.fresh_int("model.%s" % (node.tag or "n"), 0, (1 << node.width) - 1)
